@@ -84,8 +84,11 @@ def check(c):
     for h, img in images:
         cases.append((h, 'valid', 0, img))
         small = len(img) <= 150
-        ms = S.mutants(img, r, positions=(None if (small or c.tier != 'quick') else 20),
-                       limit=(None if c.tier != 'quick' else (1200 if small else per_image)))
+        if c.tier == 'quick':
+            ms = S.mutants(img, r, positions=(None if small else 20), limit=(1200 if small else per_image))
+        else:
+            # every offset of images up to 400 bytes; 120 sampled offsets (and every truncation) of larger ones
+            ms = S.mutants(img, r, positions=(None if len(img) <= 400 else 120), limit=None)
         for k, off, b in ms:
             cases.append((h, k, off, b))
     for _ in range(300 if c.tier == 'quick' else 5000):
@@ -110,15 +113,15 @@ def check(c):
     t0 = time.time()
     il = c.impl(S.AREA, [sx([Sym('load'), cs[3]]) for cs in cases])
     t1 = time.time()
-    mt = c.model(S.AREA, [sx([Sym('entries'), TODAY, cs[3]]) for cs in cases])
-    mf = c.model(S.AREA, [sx([Sym('entries'), FIXED, cs[3]]) for cs in cases], cross=False)
+    mt = c.model(S.AREA, [S.mline('entries', TODAY, cs[3]) for cs in cases])
+    mf = c.model(S.AREA, [S.mline('entries', FIXED, cs[3]) for cs in cases], cross=False)
     # images written by the implementation after an accepted load, read back by the model
     idx2, lines2 = [], []
     for i, o in enumerate(il):
         k, p = kind_of(o)
         if k == 'ok':
             idx2.append(i)
-            lines2.append(sx([Sym('entries'), TODAY, p[1]]))
+            lines2.append(S.mline('entries', TODAY, p[1]))
     m2 = dict(zip(idx2, c.model(S.AREA, lines2, cross=False)))
 
     t2 = time.time()
@@ -215,7 +218,7 @@ def check(c):
     if cases:
         c.sample({'mutation': cases[len(cases) // 3][1], 'offset': cases[len(cases) // 3][2], 'impl': il[len(cases) // 3][:60], 'model': mt[len(cases) // 3][:60]})
     if c.tier == 'thorough':
-        c.extra['exhaustive_scope'] = 'every truncation point and every offset of %d valid images for the listed substitution / overwrite values' % len(images)
+        c.extra['exhaustive_scope'] = 'every truncation point of %d valid images; every offset of those up to 400 bytes (120 sampled offsets of larger ones) for the listed substitution / overwrite values' % len(images)
 
 
 def replay(c, obj):
@@ -224,6 +227,6 @@ def replay(c, obj):
         b = bytes.fromhex(obj['image_hex'])
         sizes = S.get_sizes(c)
         print('impl load  :', c.impl(S.AREA, [sx([Sym('load'), b])])[0][:200])
-        print('model today:', c.model(S.AREA, [sx([Sym('dump'), S.cfg_today(sizes), b])], cross=False)[0][:1500])
-        print('model fixed:', c.model(S.AREA, [sx([Sym('entries'), S.cfg_fixed(sizes), b])], cross=False)[0][:200])
+        print('model today:', c.model(S.AREA, [S.mline('dump', S.cfg_today(sizes), b)], cross=False)[0][:1500])
+        print('model fixed:', c.model(S.AREA, [S.mline('entries', S.cfg_fixed(sizes), b)], cross=False)[0][:200])
     return 0
